@@ -11,3 +11,4 @@ for c in "$@"; do
 done
 git -C /repo checkout -- .
 git -C /repo status --short
+python3 /verif/extract/extract.py /repo/src /verif/lean/Kanal/Generated.lean >/dev/null
